@@ -82,11 +82,18 @@ _CFGS = {}
 
 
 def conjuncts(cond):
-    if isinstance(cond, ast.BoolOp) and isinstance(cond.op, ast.And):
+    """The atomic conditions of a test (split through and / or / not): how
+    many things the statement depends on does not change when `if a and b:`
+    becomes two nested tests, or `elif a and not b: return` becomes
+    `if a: if not b: return`."""
+    if isinstance(cond, ast.BoolOp):
         out = []
         for v in cond.values:
             out.extend(conjuncts(v))
         return out
+    if isinstance(cond, ast.UnaryOp) and isinstance(cond.op, ast.Not) and \
+            isinstance(cond.operand, ast.BoolOp):
+        return conjuncts(cond.operand)
     return [cond]
 
 
